@@ -93,7 +93,11 @@ func (x *Exec) doCall(f *Frame, st *State, instr ssa.CallInstruction, cc *ssa.Ca
 			if info.ResTyp == nil {
 				return single(st, nil)
 			}
-			return single(st, x.freshVal(st, info.ResTyp, "r_"+cc.Method.Name()))
+			// results are named by method and call ordinal so that contracts can refer to them: foreign("M", n, i)
+			top := f.top()
+			n := top.callCount["foreign:"+cc.Method.Name()] + 1
+			top.callCount["foreign:"+cc.Method.Name()] = n
+			return single(st, x.foreignResult(st, info.ResTyp, cc.Method.Name(), n))
 		}
 		return x.unknownCall(f, st, info)
 	}
@@ -593,4 +597,27 @@ func anySyms(t *Term) []*Term {
 	}
 	walk(t)
 	return out
+}
+
+var foreignSyms = map[string]*Term{}
+
+func (x *Exec) foreignResult(st *State, t types.Type, method string, n int) Val {
+	mk := func(tt types.Type, i int) Val {
+		name := fmt.Sprintf("fr_%s_%d_%d", method, n, i)
+		if s := SortOf(tt); s != nil {
+			v := Sym(name, s)
+			foreignSyms[name] = v
+			st.assume(TypeInv(v, tt, 0))
+			return v
+		}
+		return x.freshVal(st, tt, name)
+	}
+	if tup, ok := t.(*types.Tuple); ok {
+		tv := &TupleVal{}
+		for i := 0; i < tup.Len(); i++ {
+			tv.Elems = append(tv.Elems, mk(tup.At(i).Type(), i))
+		}
+		return tv
+	}
+	return mk(t, 0)
 }
